@@ -50,7 +50,10 @@ def gen_case(rng, idx):
                 m = gen_mass(rng)
             else:
                 m = [gen_mass(rng) for _ in range(n_steps)]
-            entries.append({"kind": [k[0].value, k[1].value, k[2].value], "mass": m})
+            e = {"kind": [k[0].value, k[1].value, k[2].value], "mass": m}
+            if not isinstance(m, list):       # how the scalar is held: Python float, numpy scalar, or a 0-d array (np.squeeze of a one-step series)
+                e["repr"] = str(rng.choice(["float", "float64", "0d"], p=[0.6, 0.2, 0.2]))
+            entries.append(e)
         recs.append(entries)
     ops = []
     n_pool = n_rec
@@ -95,7 +98,8 @@ def build_record(entries, user_json):
         t, o, s = e["kind"]
         kind = (TypeFuel(t), FuelOrigin(o), FuelSpecifiedBy(s))
         m = e["mass"]
-        mass = np.array(m, dtype=float) if isinstance(m, list) else float(m)
+        mass = np.array(m, dtype=float) if isinstance(m, list) else \
+            {"float": float, "float64": np.float64, "0d": lambda x: np.asarray(float(x))}[e.get("repr", "float")](m)
         user = None
         if kind[2] == FuelSpecifiedBy.USER:
             user = dict(lhv_mj_per_g=user_json["lhv"], ghg_emission_factor_well_to_tank_gco2eq_per_mj=user_json["wtt"],
